@@ -292,6 +292,12 @@ def r_helpers(ctx, model):
             # exactness on polynomial data of the chosen order needs the full column rank of the Vandermonde matrix in ln V, whose
             # columns are nearly collinear over a +-10 % volume range (singular values down to ~1e-9 of the largest at order 5):
             # a rank cut-off above machine precision silently lowers the order of the fit
+            ncols = it.opts.get("ncols")
+            ctx.check(ncols is not None and sp.simplify(as_sym(ncols) - (ORDER + 1)) == 0, f"{method}: the fitted polynomial has degree = the chosen order (order + 1 coefficients)", w,
+                      expected="order + 1 columns of the ln V Vandermonde matrix / numpy.polyfit(deg=order)", found=f"{ncols} coefficient(s) for order ORDER",
+                      explanation=f"method {method!r}: the least-squares polynomial does not have the degree the configuration asks for: data that are "
+                                  f"polynomial in ln V of the chosen order are not reproduced (degree too low) or fewer volumes than expected suffice (too high)",
+                      key=f"{method}.degree")
             rc = it.opts.get("rcond")
             try:
                 rc_ok = rc is None or float(as_sym(rc)) <= 1e-14
